@@ -1,4 +1,4 @@
-//! Fixed-slot stand-in for the `lru` crate (the API subset used by `dht` plus the neighbouring calls a refactor would plausibly reach for: pop, pop_entry, peek_mut, peek_lru, push, clear, get_or_insert), for capacities <= 4.
+//! Fixed-slot stand-in for the `lru` crate (the API subset used by `dht` plus the neighbouring calls a refactor would plausibly reach for: pop, pop_entry, peek_mut, peek_lru, push, clear, get_or_insert, resize), for capacities <= 4.
 //! No heap buffer and no indexing: every access is a direct field access, so a model checker
 //! never sees a symbolic array index.  Slots are kept most-recently-used first.
 use std::borrow::Borrow;
@@ -131,6 +131,14 @@ impl<K: Eq, V> LruCache<K, V> {
         old
     }
     pub fn clear(&mut self) { self.s0 = None; self.s1 = None; self.s2 = None; self.s3 = None; }
+    /// change the capacity; shrinking evicts least recently used entries
+    pub fn resize(&mut self, cap: NonZeroUsize) {
+        self.cap = cap;
+        let c = self.effective_cap();
+        if c < 4 { self.s3 = None; }
+        if c < 3 { self.s2 = None; }
+        if c < 2 { self.s1 = None; }
+    }
     pub fn get_or_insert<F: FnOnce() -> V>(&mut self, k: K, f: F) -> &V where K: Clone {
         if self.find(&k) == 4 { self.put(k, f()); } else { let i = self.find(&k); self.promote(i); }
         self.s0.as_ref().map(|e| &e.1).unwrap()
